@@ -635,8 +635,10 @@ class Numpy:
     def unary(self, I, op, v, node):
         import ast
         if isinstance(op, ast.Invert):
+            if v.kind == "float":
+                I.raise_exc(TypeError, "ufunc 'invert' not supported for the input types")      # numpy: ~ is undefined on floating-point arrays (also empty ones)
             if v.kind != "bool":
-                raise Unsupported("~ on a non-boolean array")
+                raise Unsupported("~ on an integer array (bitwise)")
             return self.elementwise(I, lambda x: SV(z3.Not(I.sym_bool(x))), [v], "bool", node)
         if isinstance(op, ast.USub):
             return self.elementwise(I, lambda x: I.unary(op, x, node), [v], v.kind, node)
